@@ -67,6 +67,7 @@ VAR_MENU = {
     'tp':  {'default': 12, 'divider': {'divider': 'verif_topo', 'topology': {'k': ['..', 'n']}}},
     'd':   {'default': {'k0': {'x': 1}}, 'divider': 'set', 'updater': 'dict_value'},
     'lst': {'default': [1, 2], 'divider': 'set'},
+    'q':   {'default': {'__q__': [8.0, 'mg']}, 'divider': 'split'},   # a quantity: exact halves
     'nd':  {'default': 3},                      # no divider declared: the default (set)
     't':   {'default': 0, 'divider': 'set'},    # written by the tally step
 }
@@ -78,7 +79,9 @@ def _state_for(r, cellvars, p=50, extreme=False):
         if v in ('t', 'd', 'sd', 'lst'):
             continue
         if r.chance(p):
-            if v == 'f':
+            if v == 'q':
+                st[v] = {'__q__': [r.rint(0, 64) / 4, r.pick(['mg', 'mg', 'g'])]}
+            elif v == 'f':
                 st[v] = r.rint(0, 64) / 8
             elif extreme and v in ('n', 'r') and r.chance(50):
                 # large and negative integers (conservation must be exact)
@@ -106,7 +109,7 @@ def gen_case(seed):
     tsmax = r.pick([4, 8, 16])
 
     def proc_spec(name):
-        sp = {'name': name, 'declares': ['n'] + [v for v in names if v in ('f', 'b', 'r', 'tp', 'z') and r.chance(50)]}
+        sp = {'name': name, 'declares': ['n'] + [v for v in names if v in ('f', 'b', 'r', 'tp', 'z', 'q') and r.chance(50)]}
         m = r.below(3)
         if m == 0:
             sp['ts'] = {'mode': 'const', 'vals': [r.rint(1, tsmax)], 'unit': UNIT}
@@ -118,7 +121,9 @@ def gen_case(seed):
             sp['cond'] = {'mode': 'poll', 'vals': [r.below(2) for _ in range(5)]}
         sp['writes'] = []
         for v in sp['declares']:
-            if v == 'f':
+            if v == 'q':
+                sp['writes'].append([v, [{'__q__': [r.rint(1, 16) / 4, 'mg']} for _ in range(3)]])
+            elif v == 'f':
                 sp['writes'].append([v, [r.rint(1, 40) / 8 for _ in range(3)]])
             elif v in ('n', 'b', 'r', 'tp', 'z') and (v == 'n' or r.chance(60)):
                 sp['writes'].append([v, [r.rint(1, 50) for _ in range(3)]])
@@ -138,6 +143,8 @@ def gen_case(seed):
                 t['procs'] = []      # a compartment that holds steps only
         if t['procs'] and r.chance(20):
             t['nest'] = True         # processes in a sub-compartment of the cell
+            if t['steps'] and r.chance(60):
+                t['nest_steps'] = True   # ... together with the cell's step
         templates[tname] = t
     init_cells = {'agents': [], 'pool': []}
     for i in range(r.rint(1, 3)):
@@ -261,7 +268,7 @@ def build(case, parallel=()):
             if f:
                 harness.assoc(flow, [store, key], f)
             harness.assoc(topology, [store, key], t)
-            harness.assoc(init, [store, key, 'vars'], copy.deepcopy(state))
+            harness.assoc(init, [store, key, 'vars'], _dec(state))
     for a in case['actors']:
         spec = dict(a)
         spec['cellvars'] = cellvars
@@ -450,7 +457,8 @@ def parties_of(template):
         key = ('sub', sp['name']) if template.get('nest') else (sp['name'],)
         out[key] = {'kind': 'proc'}
     for sp in template.get('steps', []):
-        out[(sp['name'],)] = {'kind': 'step', 'flow': sp.get('flow'), 'where': sp.get('where', 'steps')}
+        key = ('sub', sp['name']) if (template.get('nest') and template.get('nest_steps')) else (sp['name'],)
+        out[key] = {'kind': 'step', 'flow': sp.get('flow'), 'where': sp.get('where', 'steps')}
     return out
 
 
@@ -523,7 +531,9 @@ class HModel:
         cur = cell.vars[var]
         if isinstance(cur, Pending):
             raise HarnessError('update to an unresolved divided variable')
-        cell.vars[var] = apply_leaf(cur, copy.deepcopy(u), a.get('updater'), _dec(a['default']))
+        dflt = _dec(a['default'])
+        cell.vars[var] = apply_leaf(cur, _dec(u), a.get('updater'), dflt,
+                                    dflt.units if hasattr(dflt, 'magnitude') else None)
 
     def apply_actor_update(self, update, footprint):
         """Apply the structural/value update of an actor (port-relative).
@@ -642,13 +652,18 @@ class HModel:
                 pin = sorted(flat(g.get('processes')))
                 tin = sorted([p['name'] for p in t.get('procs', [])] +
                              [s['name'] for s in t.get('steps', []) if s.get('where') == 'processes'])
+                nested_steps = 'sub' in (g.get('steps') or {}) or any(
+                    s_['name'] in ((g.get('processes') or {}).get('sub') or {}) for s_ in t.get('steps', []))
                 if pin == tin and self._flow_matches(g, t) and \
-                        bool(t.get('nest')) == ('sub' in (g.get('processes') or {})):
+                        bool(t.get('nest')) == ('sub' in (g.get('processes') or {}) or nested_steps) and \
+                        bool(t.get('nest') and t.get('nest_steps') and t.get('steps')) == nested_steps:
                     return tname
         raise HarnessError('unknown compartment content %r' % (names,))
 
     def _flow_matches(self, g, t):
         f = g.get('flow') or {}
+        if isinstance(f.get('sub'), dict):
+            f = dict(f, **f['sub'])
         for s in t.get('steps', []):
             if (s.get('flow') is None) != (s['name'] not in f):
                 return False
@@ -714,6 +729,16 @@ class HModel:
         return None
 
 
+def _qty_close(a, b):
+    """Same physical amount (a share may be expressed in the unit of the
+    mother's value or of an explicit state)."""
+    try:
+        d = (a - b).to(b.units).magnitude
+        return abs(d) <= 1e-9 * max(1.0, abs(b.magnitude))
+    except Exception:
+        return False
+
+
 def law(v, a, m, shares, explicit, cellvars, mother_vars):
     """Law of the declared divider; None if the shares are acceptable."""
     d = a.get('divider')
@@ -744,6 +769,14 @@ def law(v, a, m, shares, explicit, cellvars, mother_vars):
         k = mother_vars.get('n')
         want = div_topo(m, {'k': k})
     elif name == 'split':
+        if hasattr(m, 'magnitude'):
+            want = [m / 2, m / 2]
+            for i in (0, 1):
+                w = exp[i] if exp[i] is not None else want[i]
+                if not _qty_close(shares[i], w):
+                    return ('split' if exp[i] is None else 'explicit-state',
+                            'daughter %d holds %r, expected %r' % (i, shares[i], w))
+            return None
         if isinstance(m, bool) or not isinstance(m, (int, float)):
             return None
         if isinstance(m, int):
@@ -1168,7 +1201,13 @@ def check(case, run, stats=None):
                 for key in t[s]:
                     rv = (rs[key] or {}).get('vars') or {}
                     for var in cellvars:
-                        if not values_equal(rv.get(var, '<absent>'), t[s][key]['vars'][var]):
+                        mv_ = t[s][key]['vars'][var]
+                        if hasattr(mv_, 'magnitude'):
+                            from dst.wiring import _emit_equal
+                            # emitted in the variable's units (those of its declared default)
+                            if _emit_equal(rv.get(var), mv_, _dec(cellvars[var]['default']).units):
+                                continue
+                        if not values_equal(rv.get(var, '<absent>'), mv_):
                             return [V('C12', 'C12.row-content', 'value',
                                       'row at %r: %s/%s/%s = %r, state %r' % (
                                           ev['row'].get('time'), s, key, var, rv.get(var, '<absent>'),
